@@ -291,6 +291,8 @@ pub struct Rig {
     /// all messages ever sent by this validator key, across incarnations (for the equivocation monitor)
     pub sent_history: Vec<validator::Signed<validator::ConsensusMsg>>,
     pub dead: bool,
+    /// the next step runs with a context that is already cancelled (the node is shutting down while the timer fires)
+    pub cancel_next: bool,
 }
 
 /// Outcome of one step as the harness sees it.
@@ -311,7 +313,7 @@ impl Rig {
         tokio::spawn(async move {
             let _ = runner.run(&rctx).await;
         });
-        let mut this = Self { me, engine, manager, clock, root, replica: None, sent_history: vec![], dead: false };
+        let mut this = Self { me, engine, manager, clock, root, replica: None, sent_history: vec![], dead: false, cancel_next: false };
         this.start(w).await;
         this
     }
@@ -382,7 +384,15 @@ impl Rig {
         }
         let mut replica = self.replica.take().expect("replica alive");
         // a child context that can be cancelled (by advancing the manual clock past its deadline) if the handler is stuck
-        let sctx = self.root.with_timeout(time::Duration::hours(1));
+        let sctx = if std::mem::take(&mut self.cancel_next) {
+            let c = self.root.with_timeout(time::Duration::ZERO);
+            for _ in 0..6 {
+                tokio::task::yield_now().await;
+            }
+            c
+        } else {
+            self.root.with_timeout(time::Duration::hours(1))
+        };
         let clock = self.clock.clone();
         let class;
         {
